@@ -54,6 +54,7 @@ def canonicalise(tree: ast.AST) -> None:
     # a test that is a literal truth value (a flag parameter of a helper that was read through with its argument):
     #   if False: A else: B  ->  B ;   X if True else Y  ->  X ;   not True -> False ;   True and X -> X ;  False or X -> X
     _fold_literal_tests(tree)
+    _isdisjoint(tree)
     _de_morgan(tree)
     # a, b = (x, y)  with plain names on both sides that do not overlap   ->   a = x ; b = y
     for node in ast.walk(tree):
@@ -66,8 +67,9 @@ def canonicalise(tree: ast.AST) -> None:
                 st = seq[i]
                 if isinstance(st, ast.Assign) and len(st.targets) == 1 and isinstance(st.targets[0], ast.Tuple) and isinstance(st.value, ast.Tuple) \
                         and len(st.targets[0].elts) == len(st.value.elts) >= 2 \
-                        and all(isinstance(e, ast.Name) for e in st.targets[0].elts) and all(isinstance(e, ast.Name) for e in st.value.elts) \
-                        and not ({e.id for e in st.targets[0].elts} & {e.id for e in st.value.elts}) \
+                        and all(isinstance(e, ast.Name) for e in st.targets[0].elts) \
+                        and all(isinstance(e, ast.Name) or (isinstance(e, ast.Call) and isinstance(e.func, ast.Name) and e.func.id == "len" and len(e.args) == 1 and isinstance(e.args[0], ast.Name)) for e in st.value.elts) \
+                        and not ({e.id for e in st.targets[0].elts} & {x.id for e in st.value.elts for x in ast.walk(e) if isinstance(x, ast.Name)}) \
                         and len({e.id for e in st.targets[0].elts}) == len(st.targets[0].elts):
                     new = []
                     for t_, v_ in zip(st.targets[0].elts, st.value.elts):
@@ -82,6 +84,7 @@ def canonicalise(tree: ast.AST) -> None:
     for fn_ in ast.walk(tree):
         if isinstance(fn_, (ast.FunctionDef, ast.AsyncFunctionDef)):
             _read_through_name_aliases(fn_)
+            _read_through_len_locals(fn_)
     # if C: raise AssertionError[(msg)]   ->   assert not C[, msg]      (`A or B` gives one assert per operand)
     for node in ast.walk(tree):
         for fld in ("body", "orelse", "finalbody"):
@@ -106,6 +109,31 @@ def canonicalise(tree: ast.AST) -> None:
                         i += len(new_)
                         continue
                 i += 1
+    # yield from (E for T in IT if C)   (a statement)   ->   for T in IT: if C: yield E
+    for node in ast.walk(tree):
+        for fld in ("body", "orelse", "finalbody"):
+            seq = getattr(node, fld, None)
+            if not (isinstance(seq, list) and seq and isinstance(seq[0], ast.stmt)):
+                continue
+            for i, st in enumerate(seq):
+                if isinstance(st, ast.Expr) and isinstance(st.value, ast.YieldFrom) and isinstance(st.value.value, (ast.GeneratorExp, ast.ListComp)) and not any(g.is_async for g in st.value.value.generators):
+                    comp = st.value.value
+                    body = [ast.Expr(value=ast.Yield(value=comp.elt))]
+                    for g in reversed(comp.generators):
+                        if g.ifs:
+                            body = [ast.If(test=g.ifs[0] if len(g.ifs) == 1 else ast.BoolOp(op=ast.And(), values=list(g.ifs)), body=body, orelse=[])]
+                        tg = copy.deepcopy(g.target)
+                        for n_ in ast.walk(tg):
+                            if hasattr(n_, "ctx"):
+                                n_.ctx = ast.Store()
+                        body = [ast.For(target=tg, iter=g.iter, body=body, orelse=[])]
+                    new = body[0]
+                    ast.copy_location(new, st)
+                    for n_ in ast.walk(new):
+                        if isinstance(n_, (ast.stmt, ast.expr)) and not hasattr(n_, "lineno"):
+                            ast.copy_location(n_, st)
+                    ast.fix_missing_locations(new)
+                    seq[i] = new
     # X = D.get(K); if X is not None [and R]: BODY      ->   if K in D: X = D[K]; [if R:] BODY
     # (X read nowhere else in the function; a table whose values are names, never None)
     for fn_ in ast.walk(tree):
@@ -845,6 +873,69 @@ def canonicalise(tree: ast.AST) -> None:
                 i += 1
 
 
+def _read_through_len_locals(fn: ast.AST) -> None:
+    """`n = len(xs)` bound once outside any loop, `xs` a parameter or a local bound once that this function neither
+    re-binds nor changes in place: `n` is read as `len(xs)` (a length kept in a local for a few comparisons).
+    Side condition: callees that are handed `xs` do not change it either (the edit primitives of this package copy)."""
+    own = list(_walk_own(fn))
+    if any(isinstance(n, (ast.Global, ast.Nonlocal)) for n in own):
+        return
+    stores: dict = {}
+    decls = {id(n.target) for n in own if isinstance(n, ast.AnnAssign) and n.value is None}
+    for n in own:
+        if isinstance(n, ast.Name) and isinstance(n.ctx, (ast.Store, ast.Del)) and id(n) not in decls:
+            stores[n.id] = stores.get(n.id, 0) + 1
+    params = {a.arg for a in fn.args.args + fn.args.kwonlyargs + fn.args.posonlyargs}
+    MUT = ("append", "extend", "insert", "pop", "remove", "clear", "sort", "reverse", "add", "discard", "update", "difference_update", "intersection_update", "popleft", "appendleft")
+    mutated = set()
+    for n in ast.walk(fn):
+        if isinstance(n, ast.Call) and isinstance(n.func, ast.Attribute) and n.func.attr in MUT and isinstance(n.func.value, ast.Name):
+            mutated.add(n.func.value.id)
+        elif isinstance(n, (ast.Subscript,)) and isinstance(n.ctx, (ast.Store, ast.Del)) and isinstance(n.value, ast.Name):
+            mutated.add(n.value.id)
+        elif isinstance(n, ast.AugAssign) and isinstance(n.target, ast.Name):
+            mutated.add(n.target.id)
+    nested_stores = {x.id for n in ast.walk(fn) if n is not fn and isinstance(n, (ast.FunctionDef, ast.AsyncFunctionDef, ast.Lambda)) for x in ast.walk(n) if isinstance(x, ast.Name) and isinstance(x.ctx, ast.Store)}
+
+    def walk_stmts(stmts, in_loop, out):
+        for st in stmts:
+            if isinstance(st, ast.Assign) and len(st.targets) == 1 and isinstance(st.targets[0], ast.Name) and not in_loop:
+                out.append((st, stmts))
+            if isinstance(st, (ast.FunctionDef, ast.AsyncFunctionDef, ast.ClassDef)):
+                continue
+            for fld in ("body", "orelse", "finalbody"):
+                sub = getattr(st, fld, None)
+                if isinstance(sub, list) and sub and isinstance(sub[0], ast.stmt):
+                    walk_stmts(sub, in_loop or isinstance(st, (ast.For, ast.While, ast.AsyncFor)), out)
+            for h in getattr(st, "handlers", []) or []:
+                walk_stmts(h.body, in_loop, out)
+
+    cands: list = []
+    walk_stmts(fn.body, False, cands)
+    for st, holder in cands:
+        n = st.targets[0].id
+        v = st.value
+        if not (isinstance(v, ast.Call) and isinstance(v.func, ast.Name) and v.func.id == "len" and len(v.args) == 1 and not v.keywords and isinstance(v.args[0], ast.Name)):
+            continue
+        x = v.args[0].id
+        if stores.get(n) != 1 or n in params or n in nested_stores or n in mutated:
+            continue
+        if not ((x in params and stores.get(x, 0) == 0) or stores.get(x, 0) == 1) or x in mutated or x in nested_stores:
+            continue
+        for node in ast.walk(fn):
+            for fld, sub in ast.iter_fields(node):
+                if isinstance(sub, ast.Name) and sub.id == n and isinstance(sub.ctx, ast.Load):
+                    setattr(node, fld, ast.copy_location(ast.Call(func=ast.Name(id="len", ctx=ast.Load()), args=[ast.Name(id=x, ctx=ast.Load())], keywords=[]), sub))
+                elif isinstance(sub, list):
+                    for k_, y in enumerate(sub):
+                        if isinstance(y, ast.Name) and y.id == n and isinstance(y.ctx, ast.Load):
+                            sub[k_] = ast.copy_location(ast.Call(func=ast.Name(id="len", ctx=ast.Load()), args=[ast.Name(id=x, ctx=ast.Load())], keywords=[]), y)
+        holder.remove(st)
+        if not holder:
+            holder.append(ast.copy_location(ast.Pass(), st))
+    ast.fix_missing_locations(fn)
+
+
 def _read_through_name_aliases(fn: ast.AST) -> None:
     own = [n for n in _walk_own(fn)]
     stores: dict = {}
@@ -1020,6 +1111,20 @@ def _de_morgan(tree: ast.AST) -> None:
             self.generic_visit(n)
             if isinstance(n.op, ast.Not) and isinstance(n.operand, ast.UnaryOp) and isinstance(n.operand.op, ast.Not) and isinstance(n.operand.operand, (ast.BoolOp, ast.Compare)):
                 return n.operand.operand
+            return n
+
+    _T().visit(tree)
+    ast.fix_missing_locations(tree)
+
+
+def _isdisjoint(tree: ast.AST) -> None:
+    """X.isdisjoint(Y)  ->  not X.intersection(Y)   (both are the bool "no common element")"""
+    class _T(ast.NodeTransformer):
+        def visit_Call(self, n: ast.Call):
+            self.generic_visit(n)
+            if isinstance(n.func, ast.Attribute) and n.func.attr == "isdisjoint" and len(n.args) == 1 and not n.keywords:
+                inter = ast.Call(func=ast.Attribute(value=n.func.value, attr="intersection", ctx=ast.Load()), args=n.args, keywords=[])
+                return ast.copy_location(ast.UnaryOp(op=ast.Not(), operand=ast.copy_location(inter, n)), n)
             return n
 
     _T().visit(tree)
